@@ -321,6 +321,9 @@ func registerShared() {
 	register("shared2", shared2)
 	register("strs", strs)
 	register("anymap", anymap)
+	for i, o := range sharedOpts {
+		register(fmt.Sprint("shared DEQOptions ", i), o)
+	}
 	for _, f := range families {
 		for i, t := range f.templates {
 			register(fmt.Sprint("template ", f.name, i), t)
